@@ -47,6 +47,30 @@ class Node:
         self.t = t
 
 
+class LegacySequence:
+    """A list-like resolver result that only implements the sequence protocol (__len__ / __getitem__, no __iter__): rows of
+    database drivers, ctypes arrays, paging wrappers.  iter() accepts it, so it is a value of a list type."""
+
+    def __init__(self, items):
+        self._items = list(items)
+
+    def __len__(self):
+        return len(self._items)
+
+    def __getitem__(self, i):
+        return self._items[i]
+
+
+_LIST_FORMS = [list, tuple, lambda xs: (x for x in xs), LegacySequence, lambda xs: iter(xs)]
+_list_form = [0]
+
+
+def as_some_list(xs):
+    """gamma for "a resolver result of a list type": the forms rotate so that every form meets every list field."""
+    _list_form[0] += 1
+    return _LIST_FORMS[_list_form[0] % len(_LIST_FORMS)](xs)
+
+
 def exec_schema(which, conc, nulls_seed=None):
     """Schema whose every field resolves to a value of its declared type; abstract types resolve to `conc`-th possible type."""
     key = (which, conc, nulls_seed)
@@ -73,8 +97,8 @@ def exec_schema(which, conc, nulls_seed=None):
             if isinstance(inner, (InterfaceType, UnionType)) and isinstance(conc, str):
                 # lists of abstract types alternate between the possible types (spec: sub / sub2)
                 other = [x for x in sorted(y.name for y in schema.get_possible_types(inner)) if x != pick(inner)]
-                return [Node(pick(inner)), Node(other[0] if other else pick(inner))]
-            return [value(t.type), value(t.type)]
+                return as_some_list([Node(pick(inner)), Node(other[0] if other else pick(inner))])
+            return as_some_list([value(t.type), value(t.type)])
         if isinstance(t, ObjectType):
             return Node(t.name)
         if isinstance(t, (InterfaceType, UnionType)):
@@ -343,6 +367,7 @@ def run(chk):
     if nexec < len(cases) // 10:
         from harness.core import Machinery
         raise Machinery("vacuous: only %d executions for %d documents" % (nexec, len(cases)))
+    termination_probe(chk)
     texts = grammar_texts(chk, rng)
     chk.count("concrete documents from the grammar (incl. mutations)", len(texts))
     nacc = npars = 0
@@ -366,6 +391,47 @@ def run(chk):
                         "stage B judges crash-freedom only (validation and execution); the data shape is judged in stage A where TLC has the abstract document",
                         "schemas: the GqlValidate prototype schema and a schema built over the grammar corpus' identifier pool"]
     return chk.finish(rule="abstract documents judged and shaped by TLC, executed when the implementation accepts them; grammar sentences and mutations validated on two schemas")
+
+
+def layered_fragments(levels):
+    """A valid document whose fragments form a DAG with 2^levels spread paths: both fragments of a level spread both of the next."""
+    parts = ["{ o { ...L0a ...L0b } }"]
+    for i in range(levels):
+        nxt = "...L%da ...L%db" % (i + 1, i + 1) if i + 1 < levels else "a"
+        parts.append("fragment L%da on Obj { a o { %s } }" % (i, nxt))
+        parts.append("fragment L%db on Obj { s o { %s } }" % (i, nxt))
+    return "\n".join(parts)
+
+
+def _validate_text(text):
+    from py_gql import build_schema
+    from py_gql.lang import parse
+    from py_gql.validation import validate_ast
+    return [str(e) for e in validate_ast(build_schema(valgamma.SDL), parse(text)).errors]
+
+
+def termination_probe(chk):
+    """Validation terminates: documents that are small but reach their fragments along exponentially many paths are validated
+    within a generous budget (the unchanged tree needs well under a second)."""
+    import multiprocessing as mp
+    for levels in (18, 26):
+        text = layered_fragments(levels)
+        ctx = mp.get_context("fork")
+        with ctx.Pool(1) as pool:
+            r = pool.apply_async(_validate_text, (text,))
+            try:
+                errs = r.get(timeout=120)
+            except mp.TimeoutError:
+                chk.diverge("validate/does-not-terminate/fragment-dag", {"levels": levels, "definitions": 2 * levels + 1, "budget_s": 120, "text": text[:400]},
+                            "validation of a %d-definition document does not finish within 120 s" % (2 * levels + 1))
+                pool.terminate()
+                return
+            except Exception as e:
+                chk.diverge("validate/raises/%s/fragment-dag" % type(e).__name__, {"levels": levels, "error": repr(e)[:300]}, "validation raises")
+                return
+        chk.traces += 1
+        if errs:
+            chk.diverge("validate/false-error/fragment-dag", {"levels": levels, "errors": errs[:3]}, "a valid document is rejected")
 
 
 def replay_cmd(path):
